@@ -5,12 +5,14 @@ package main
 // parser / composer / applier, observed field by field.
 
 import (
+	"bytes"
 	"encoding/json"
 	"fmt"
 	"math/rand"
 	"reflect"
 	"sort"
 	"strings"
+	"sync"
 
 	"github.com/trustbloc/sidetree-go/pkg/api/operation"
 	"github.com/trustbloc/sidetree-go/pkg/api/protocol"
@@ -55,6 +57,7 @@ type histStep struct {
 	ParserRefused    bool
 	Cfg              protocol.Protocol
 	ByteLevel        bool
+	Genuine          []byte // see built.genuine
 }
 
 type histCase struct {
@@ -265,6 +268,9 @@ type built struct {
 	v     view
 	label string
 	typ   string // anchored type to use
+	// the genuine request a forged one was derived from (same signature): applied by other goroutines
+	// while the forged one is being judged
+	genuine []byte
 }
 
 func hdrFor(k *keyPair) map[string]interface{} { return map[string]interface{}{"alg": k.alg} }
@@ -285,12 +291,12 @@ var commonSigned = []string{"", "", "", "sig_bitflip", "payload_reencoded", "key
 	"sig_truncated", "sig_extended", "sig_by_other_key", "key_subst_resigned", "key_subst_resigned_old_reveal", "reveal_substituted",
 	"reveal_unconfigured_alg", "reveal_truncated_digest", "reveal_respelled", "extra_header", "alg_not_allowed", "alg_missing", "curve_not_allowed", "nonce_wrong_size",
 	"malformed_json", "missing_did_suffix", "missing_signed_data", "absent_did_suffix", "absent_reveal_value", "absent_signed_data", "absent_type",
-	"alg_other_case", "header_duplicate_member_no_resign", "header_null_member_no_resign", "jws_trailing_segment", "jws_two_parts", "jws_empty_sig", "payload_not_json",
+	"alg_other_case", "header_duplicate_member_no_resign", "header_null_member_no_resign", "jws_trailing_segment", "payload_respelled_no_resign", "jws_two_parts", "jws_empty_sig", "payload_not_json",
 	"json_type_member_differs", "early", "late", "at_from", "at_until", "at_default_until", "after_default_until", "until_only", "inverted_window", "negative_until", "negative_from"}
 
 var deltaMuts = []string{"delta_substituted", "delta_no_patches", "delta_disabled_action", "delta_invalid_patch",
 	"delta_oversize", "delta_bad_update_commitment", "delta_missing", "delta_missing_hash_of_null", "compose_fails",
-	"signed_delta_hash_unconfigured_alg", "delta_hash_truncated", "delta_hash_respelled", "delta_invalid_patch_after_valid_same_action", "big_request", "rotate_nonce_only", "delta_at_size_limit_html"}
+	"signed_delta_hash_unconfigured_alg", "delta_hash_truncated", "delta_hash_respelled", "delta_invalid_patch_after_valid_same_action", "big_request", "rotate_nonce_only", "delta_at_size_limit_html", "delta_rewritten_no_resign_concurrent"}
 
 func mutationsFor(typ string) []string {
 	switch typ {
@@ -661,6 +667,25 @@ func (d *didState) buildOp(typ, mut string, t uint64, cfg *protocol.Protocol) bu
 			v.Until = p2["anchorUntil"].(int64)
 			parts[1] = b64(jcs(p2))
 			v.SigOK = false
+		case "payload_respelled_no_resign": // the same signed values in another spelling (member order, blanks): not the octets that were signed
+			names := make([]string, 0, len(payload))
+			for k := range payload {
+				names = append(names, k)
+			}
+			sort.Sort(sort.Reverse(sort.StringSlice(names)))
+			var sb strings.Builder
+			sb.WriteString(" {")
+			for i, k := range names {
+				if i > 0 {
+					sb.WriteString(" ,")
+				}
+				sb.Write(jcs(k))
+				sb.WriteString(": ")
+				sb.Write(jcs(payload[k]))
+			}
+			sb.WriteString("}\n")
+			parts[1] = b64([]byte(sb.String()))
+			v.SigOK = false
 		case "key_subst_no_resign":
 			p2 := map[string]interface{}{}
 			for k, val := range payload {
@@ -751,6 +776,31 @@ func (d *didState) buildOp(typ, mut string, t uint64, cfg *protocol.Protocol) bu
 		}
 	}
 	bs := op.bytes()
+	var genuine []byte
+	if mut == "delta_rewritten_no_resign_concurrent" && op.signedData != "" {
+		// the genuine request stays as built; the forged one carries another delta and the hash of
+		// that delta in the signed data (same length), under the genuine signature
+		genuine = bs
+		d2 := map[string]interface{}{"patches": []interface{}{map[string]interface{}{"action": "add-also-known-as", "uris": []interface{}{"https://attacker.example/"}}},
+			"updateCommitment": commitmentOf(d.newKey().jwk(), code)}
+		parts := strings.Split(op.signedData, ".")
+		if len(parts) == 3 {
+			pb, _ := b64dec(parts[1])
+			var pm map[string]interface{}
+			dec := json.NewDecoder(bytes.NewReader(pb))
+			dec.UseNumber()
+			if dec.Decode(&pm) == nil {
+				pm["deltaHash"] = modelHash(d2, code)
+				parts[1] = b64(jcs(pm))
+				op.signedData = strings.Join(parts, ".")
+				op.delta = d2
+				v.SigOK = false
+				v.UpdateC = d2["updateCommitment"].(string)
+				v.Patches = d2["patches"].([]interface{})
+				bs = op.bytes()
+			}
+		}
+	}
 	if mut == "malformed_json" {
 		bs = bs[:len(bs)-1-r.Intn(len(bs)/2)]
 		v.ParseOK = false
@@ -768,7 +818,7 @@ func (d *didState) buildOp(typ, mut string, t uint64, cfg *protocol.Protocol) bu
 			d.rec, d.upd = nextRec, nextUpd
 		}
 	}
-	return built{bytes: bs, v: v, label: mut, typ: typ}
+	return built{bytes: bs, v: v, label: mut, typ: typ, genuine: genuine}
 }
 
 func b64dec(s string) ([]byte, error) { return b64raw.DecodeString(s) }
@@ -842,10 +892,85 @@ func runHistory(c *histCase, cfgs []protocol.Protocol) {
 		if err != nil && res != nil {
 			s.InputsIntact = false // a refused operation must yield no state
 		}
+		if s.Genuine != nil {
+			// while other goroutines apply the genuine request (same signature) to the same state, the
+			// forged one is applied again and again: once accepted is accepted
+			gop := &operation.AnchoredOperation{Type: aop.Type, OperationRequest: s.Genuine, TransactionTime: s.Time, TransactionNumber: s.Num,
+				ProtocolVersion: s.Ver, CanonicalReference: s.Canon, EquivalentReferences: s.Equiv}
+			var wg sync.WaitGroup
+			var mu sync.Mutex
+			stop := make(chan struct{})
+			for w := 0; w < 6; w++ {
+				wg.Add(1)
+				go func() {
+					defer wg.Done()
+					defer func() { recover() }()
+					for {
+						select {
+						case <-stop:
+							return
+						default:
+							applier.Apply(gop, rm)
+						}
+					}
+				}()
+			}
+			var fw sync.WaitGroup
+			for w := 0; w < 6; w++ {
+				fw.Add(1)
+				go func() {
+					defer fw.Done()
+					defer func() { recover() }()
+					for k := 0; k < 400; k++ {
+						if r2, e2 := applier.Apply(aop, rm); e2 == nil {
+							mu.Lock()
+							res, err = r2, nil
+							mu.Unlock()
+							return
+						}
+					}
+				}()
+			}
+			fw.Wait()
+			close(stop)
+			wg.Wait()
+		}
 		s.ImplOK = err == nil
 		// the same operation applied again to the same state by the same applier instance: same answer
 		res2, err2 := applier.Apply(aop, rm)
 		s.AgainDiffers = (err == nil) != (err2 == nil) || (err == nil && deepSnapshot(res) != deepSnapshot(res2))
+		// the same request anchored at other times (around the edges of its window) on the applier that
+		// has just judged it, against an applier that has never seen it and against one put together from
+		// its exported parts with the protocol assigned afterwards: the answer depends on the operation,
+		// the anchoring data and the state - not on what an applier saw before or on how it was made
+		{
+			times := []uint64{s.Time + 100000}
+			if s.V.From > 1 {
+				times = append(times, uint64(s.V.From-1), uint64(s.V.From))
+			}
+			until := s.V.Until
+			if until == 0 && s.V.From != 0 {
+				until = s.V.From + int64(cfg.MaxOperationTimeDelta)
+			}
+			if until > 0 {
+				times = append(times, uint64(until), uint64(until+1))
+			}
+			times = append(times, s.Time)
+			for _, t2 := range times {
+				a2 := *aop
+				a2.TransactionTime = t2
+				r1, e1 := applier.Apply(&a2, rm)
+				fresh := operationapplier.New(cfg, operationparser.New(cfg), composer)
+				r2, e2 := fresh.Apply(&a2, rm)
+				made := &operationapplier.Applier{OperationParser: operationparser.New(cfg), DocumentComposer: composer}
+				made.Protocol = cfg
+				r3, e3 := made.Apply(&a2, rm)
+				if (e1 == nil) != (e2 == nil) || (e1 == nil && deepSnapshot(r1) != deepSnapshot(r2)) ||
+					(e3 == nil) != (e2 == nil) || (e3 == nil && deepSnapshot(r3) != deepSnapshot(r2)) {
+					s.AgainDiffers = true
+				}
+			}
+		}
 		// an applier whose parser carries request-time validators that refuse everything: anchored
 		// operations are judged by their anchoring time only, so the answer must be the same
 		strict := operationapplier.New(cfg, operationparser.New(cfg, operationparser.WithAnchorTimeValidator(refuseTime{}),
@@ -887,8 +1012,8 @@ func mutationPool(focus, typ string) []string {
 	case "auth":
 		for _, m := range muts {
 			if m == "" || strings.HasPrefix(m, "sig_") || strings.HasPrefix(m, "key_") || strings.HasPrefix(m, "reveal_") ||
-				strings.HasPrefix(m, "delta_substituted") || m == "delta_hash_truncated" || strings.Contains(m, "header") || strings.HasPrefix(m, "alg_") ||
-				m == "payload_reencoded" || m == "kid_added_no_resign" || strings.HasPrefix(m, "signed_suffix_") || strings.HasPrefix(m, "signed_reveal_") || m == "delta_hash_respelled" || m == "recover_payload_replayed" || strings.HasPrefix(m, "jws_") {
+				strings.HasPrefix(m, "delta_substituted") || m == "delta_rewritten_no_resign_concurrent" || m == "delta_hash_truncated" || strings.Contains(m, "header") || strings.HasPrefix(m, "alg_") ||
+				m == "payload_reencoded" || m == "payload_respelled_no_resign" || m == "kid_added_no_resign" || strings.HasPrefix(m, "signed_suffix_") || strings.HasPrefix(m, "signed_reveal_") || m == "delta_hash_respelled" || m == "recover_payload_replayed" || strings.HasPrefix(m, "jws_") {
 				pool = append(pool, m)
 			}
 		}
@@ -985,7 +1110,7 @@ func genHistory(r *rand.Rand, focus string, maxLen int) (*histCase, []protocol.P
 			b.label += "+unknown_anchored_type"
 		}
 		st := &histStep{Type: aType, Time: t, Num: uint64(r.Intn(1000)), Ver: uint64(r.Intn(3)),
-			Canon: fmt.Sprintf("ref%d", r.Intn(100000)), Bytes: b.bytes, V: b.v, Label: b.label}
+			Canon: fmt.Sprintf("ref%d", r.Intn(100000)), Bytes: b.bytes, V: b.v, Label: b.label, Genuine: b.genuine}
 		for j := 0; j < r.Intn(3); j++ {
 			st.Equiv = append(st.Equiv, fmt.Sprintf("eq%d", r.Intn(1000)))
 		}
